@@ -370,14 +370,35 @@ pub fn gen_smb1_negotiate(rng: &mut Rng) -> Vec<u8> {
     nbt(&m)
 }
 
+/// A security blob as clients send it: random bytes, a bare NTLMSSP NEGOTIATE message, or the
+/// same wrapped in SPNEGO (the responder must not care).
+fn gen_blob(rng: &mut Rng) -> Vec<u8> {
+    let ntlm: Vec<u8> = {
+        let mut v = b"NTLMSSP\0".to_vec();
+        v.extend_from_slice(&1u32.to_le_bytes());
+        v.extend_from_slice(&rng.u32().to_le_bytes());
+        v.extend_from_slice(&[0; 16]);
+        v.extend_from_slice(&[6, 1, 0xb1, 0x1d, 0, 0, 0, 0x0f]);
+        v
+    };
+    match rng.below(6) {
+        0 => ntlm,
+        1 => {
+            let mut v = vec![0x60, (ntlm.len() + 32) as u8, 0x06, 0x06, 0x2b, 0x06, 0x01, 0x05, 0x05, 0x02, 0xa0, (ntlm.len() + 22) as u8, 0x30, (ntlm.len() + 20) as u8];
+            v.extend_from_slice(&[0xa0, 0x0e, 0x30, 0x0c, 0x06, 0x0a, 0x2b, 0x06, 0x01, 0x04, 0x01, 0x82, 0x37, 0x02, 0x02, 0x0a, 0xa2, (ntlm.len() + 2) as u8, 0x04, ntlm.len() as u8]);
+            v.extend_from_slice(&ntlm);
+            v
+        }
+        2 => vec![rng.u8()],
+        3 => rng.bytes_range(2, 40),
+        _ => rng.bytes_range(40, 300),
+    }
+}
+
 pub fn gen_smb1_session_setup(rng: &mut Rng) -> Vec<u8> {
     let h = gen_hdr1(rng, 0x73);
-    let blob_len = match rng.below(4) {
-        0 => 1,
-        1 => rng.range(2, 40),
-        _ => rng.range(40, 300),
-    } as usize;
-    let blob = rng.bytes(blob_len);
+    let blob = gen_blob(rng);
+    let blob_len = blob.len();
     let tail = if rng.chance(1, 2) { Vec::new() } else { rng.bytes_range(1, 30) };
     let mut m = h.encode();
     m.push(12);
@@ -429,11 +450,8 @@ pub fn gen_smb2_negotiate(rng: &mut Rng) -> Vec<u8> {
 
 pub fn gen_smb2_session_setup(rng: &mut Rng) -> Vec<u8> {
     let h = gen_hdr2(rng, 1);
-    let blob_len = match rng.below(4) {
-        0 => 1,
-        1 => rng.range(2, 40),
-        _ => rng.range(40, 300),
-    } as usize;
+    let blob = gen_blob(rng);
+    let blob_len = blob.len();
     let mut m = h.encode();
     m.extend_from_slice(&25u16.to_le_bytes());
     m.push(rng.u8() & 1);
@@ -443,7 +461,7 @@ pub fn gen_smb2_session_setup(rng: &mut Rng) -> Vec<u8> {
     m.extend_from_slice(&0x58u16.to_le_bytes()); // SecurityBufferOffset
     m.extend_from_slice(&(blob_len as u16).to_le_bytes());
     m.extend_from_slice(&rng.u64().to_le_bytes()); // PreviousSessionId
-    m.extend_from_slice(&rng.bytes(blob_len));
+    m.extend_from_slice(&blob);
     nbt(&m)
 }
 
